@@ -12,6 +12,7 @@ import Calc.Proofs.EvalPure
 import Calc.Proofs.EnvStep
 import Calc.Proofs.FrontLemmas
 import Calc.Proofs.FrontScanTab
+import Calc.Proofs.FrontParseTab
 import Calc.Props.C10
 import Calc.Props.C12
 namespace Calc
@@ -167,15 +168,34 @@ theorem C16_line_isolation (cfg : ScanCfg S) (fuel : Nat) (env : Env S) (bad : S
 /-! ## the tab size only moves positions -/
 
 omit [Add S] [Sub S] [Mul S] [Div S] [Zero S] [One S] in
-/-- C16 (stretch, scanner half), "the tab size affects reported columns only": two configurations
-    that differ only in the tab size scan every text to the same result once positions are
-    erased — the same token kinds and lexemes in the same order, or a failure on the same
-    character, or the same panic.  OPEN (not proved here): the parser half, that `parse` of two
-    token lists equal up to positions gives statements equal up to positions. -/
+/-- C16, "the tab size affects reported columns only", scanner: two configurations that differ
+    only in the tab size scan every text to the same result once positions are erased — the same
+    token kinds and lexemes in the same order, or a failure on the same character, or the same
+    panic. -/
 theorem C16_tabsize (cfg₁ cfg₂ : ScanCfg S) (ha : cfg₁.isAlnum = cfg₂.isAlnum)
     (hk : cfg₁.keyword = cfg₂.keyword) (t : Str) :
     (scan cfg₁ t).erasePos = (scan cfg₂ t).erasePos :=
   scan_erasePos cfg₁ cfg₂ ha hk t
+
+omit [Add S] [Sub S] [Mul S] [Div S] [Zero S] [One S] [Kernel S] in
+/-- C16, "the tab size affects reported columns only", parser: parsing commutes with erasing
+    positions — no decision of the parser depends on a line or a column. -/
+theorem C16_parse_positions (toks : List (Tok S)) :
+    parse (toks.map Tok.erasePos) = (parse toks).erasePos :=
+  parse_erasePos toks
+
+omit [Add S] [Sub S] [Mul S] [Div S] [Zero S] [One S] in
+/-- C16, "the tab size affects reported columns only", scanner and parser together: if a text
+    scans under one tab size it scans under the other, to the same tokens up to positions, and
+    the two token lists parse to the same statements up to positions (or to the same parse error
+    up to its position). -/
+theorem C16_tabsize_statements (cfg₁ cfg₂ : ScanCfg S) (ha : cfg₁.isAlnum = cfg₂.isAlnum)
+    (hk : cfg₁.keyword = cfg₂.keyword) (t : Str) (toks₁ : List (Tok S))
+    (h1 : scan cfg₁ t = .ok toks₁) :
+    ∃ toks₂, scan cfg₂ t = .ok toks₂ ∧
+      toks₁.map Tok.erasePos = toks₂.map Tok.erasePos ∧
+      (parse toks₁).erasePos = (parse toks₂).erasePos :=
+  scan_parse_erasePos cfg₁ cfg₂ ha hk t toks₁ h1
 
 omit [Add S] [Sub S] [Mul S] [Div S] [Zero S] [One S] in
 /-- C16, `C16_tabsize` specialised: changing only the `tab` field. -/
